@@ -55,3 +55,43 @@ pub open spec fn mirror_sem(op: int) -> int {
     else if op == op_lte() { op_gte() } else if op == op_gte() { op_lte() }
     else { op_none() }
 }
+
+// ---- static stack effect (the compile-side half of "the operand stack is never popped when empty") ------------
+/// net effect of executing `op` on the height of the operand stack, as far as it does not depend on an operand
+/// (Call, Array and CallBuiltin additionally consume as many values as their operand says: call_operand_delta).
+/// PROVED on the machine side: unit c02_arms states the exact stack of every arm after the step, whose length is
+/// the old length plus this number (for the three operand-dependent opcodes: plus call_operand_delta as well).
+pub open spec fn op_delta(op: OpCode) -> int {
+    match op {
+        OpCode::Const | OpCode::True | OpCode::False | OpCode::Null | OpCode::GetLocal | OpCode::GetGlobal => 1,
+        OpCode::GtLocalConst | OpCode::GteLocalConst | OpCode::LtLocalConst | OpCode::LteLocalConst | OpCode::EqLocalConst | OpCode::NeqLocalConst
+        | OpCode::AddLocalConst | OpCode::SubtractLocalConst | OpCode::MultiplyLocalConst | OpCode::DivideLocalConst | OpCode::ModuloLocalConst => 1,
+        OpCode::Pop | OpCode::SetLocal | OpCode::SetGlobal | OpCode::JumpIfFalse | OpCode::IndexGet => -1,
+        OpCode::Add | OpCode::Subtract | OpCode::Multiply | OpCode::Divide | OpCode::Modulo | OpCode::Lt | OpCode::Lte | OpCode::Gt | OpCode::Gte
+        | OpCode::Eq | OpCode::Neq | OpCode::And | OpCode::Or => -1,
+        OpCode::IndexSet => -2,
+        OpCode::Array | OpCode::CallBuiltin => 1,
+        _ => 0,   // Not, Negate, Halt, Call (before its operand), Jump / Return / ReturnValue (end the flow: op_ends_flow)
+    }
+}
+/// control does not continue with the next instruction
+pub open spec fn op_ends_flow(op: OpCode) -> bool { op == OpCode::Jump || op == OpCode::Return || op == OpCode::ReturnValue }
+/// static height of the operand stack at a code position: Dead = no path reaches it; At(h) = every path that reaches
+/// it does so with h values on the stack (relative to the start of the flow); Conflict = two paths disagree (poison:
+/// nothing can be proved from it)
+pub enum H { Dead, At(int), Conflict }
+pub open spec fn hplus(h: H, k: int) -> H { match h { H::At(v) => H::At(v + k), _ => h } }
+/// a piece of code that starts at height `pre` ends at height pre + k on every path that falls out of its end (it
+/// may have no such path: Dead)
+pub open spec fn hstep(pre: H, post: H, k: int) -> bool {
+    match pre { H::At(v) => post is Dead || post == H::At(v + k), H::Dead => post is Dead, H::Conflict => true }
+}
+/// two flows meet at one position (a forward jump lands at the current end of the code)
+pub open spec fn hjoin(a: H, b: H) -> H {
+    match (a, b) {
+        (H::Dead, _) => b,
+        (_, H::Dead) => a,
+        (H::At(v), H::At(w)) => if v == w { a } else { H::Conflict },
+        _ => H::Conflict,
+    }
+}
